@@ -26,7 +26,7 @@ import sympy as sp
 
 from ..core import Check, AnalysisError
 from .. import repoindex as ri
-from ..kpe import Interp, SymObj, ClassRef, FuncRef, OutsideFragment, KpeRaise, Opaque
+from ..kpe import Interp, SymObj, ClassRef, FuncRef, OutsideFragment, KpeRaise, Opaque, to_obj_array
 
 SB = "hiten.algorithms.types.services.base"
 SERVICE_PKG = "hiten.algorithms.types.services"
@@ -149,6 +149,21 @@ def _a_hashable(chk, sites):
         txt = " ".join(ast.unparse(a) for a in args)
         if "to_dict()" in txt or "kwargs" in txt:
             dict_sites.append(s.name)
+    # arrays (states, grids) that differ in one entry below printing precision, and long arrays that differ in the middle
+    try:
+        a1 = to_obj_array([sp.Rational(1, 3), sp.Rational(2, 1)])
+        a2 = to_obj_array([sp.Rational(1, 3), sp.Rational(2, 1) + sp.Rational(1, 10 ** 12)])
+        ka1, ka2 = strip(make("propagate", a1, 5)), strip(make("propagate", a2, 5))
+        n_long = 1200
+        b1 = to_obj_array([sp.Integer(i) for i in range(n_long)])
+        b2 = b1.copy()
+        b2[n_long // 2] = sp.Integer(-1)
+        kb1, kb2 = strip(make("propagate", b1)), strip(make("propagate", b2))
+    except OutsideFragment as exc:
+        raise AnalysisError(f"make_key left the analysable fragment on array arguments: {exc}")
+    chk.check(ka1 != ka2 and kb1 != kb2, "C20.a", f"{SB}::_CacheServiceBase.make_key[array argument]",
+              "two arrays that differ in one entry (by 1e-12, or in the middle of a 1200-element array) produce the same cache key: arrays must enter the key element by element, "
+              "not through a text rendering (numpy prints 8 digits and elides long arrays)", sample="keys differ for arrays differing in one entry")
     chk.check(k1 != k2 and k1 != k3, "C20.a", f"{SB}::_CacheServiceBase.make_key[nested options]",
               f"two option sets that differ only in a nested value (tol 1e-12 vs 1e-3; order 8 vs 4) produce the same cache key {k1}: _make_hashable reduces a dict to the "
               f"tuple of its keys, so the second request is served the first result. Sites whose keys carry option dictionaries: {dict_sites}",
@@ -641,6 +656,24 @@ def _h_reload(chk):
     setup = next((f for f in ccls.body if isinstance(f, ast.FunctionDef) and f.name == "_setup_services"), None)
     if setup is None:
         raise AnalysisError("anchor: _HitenBase._setup_services not found")
+    # every pickled computed value the target has an attribute for is put back: the restore loop filters on nothing but the
+    # attribute's existence (a filter on the value's type / the current value silently drops restorable state)
+    for loop in [n for n in ast.walk(setup) if isinstance(n, ast.For)]:
+        calls = [c for c in ast.walk(loop) if isinstance(c, ast.Call) and isinstance(c.func, ast.Name) and c.func.id == "setattr"]
+        if not calls or not isinstance(loop.target, ast.Tuple) or len(loop.target.elts) != 2:
+            continue
+        vname = loop.target.elts[1].id if isinstance(loop.target.elts[1], ast.Name) else None
+        locals_from_target = {t.id for st in ast.walk(loop) if isinstance(st, ast.Assign) for t in st.targets if isinstance(t, ast.Name)
+                              and any(isinstance(c, ast.Call) and isinstance(c.func, ast.Name) and c.func.id == "getattr" for c in ast.walk(st.value))}
+        filters = []
+        for test in [n.test for n in ast.walk(loop) if isinstance(n, ast.If)]:
+            names = {x.id for x in ast.walk(test) if isinstance(x, ast.Name)}
+            if (vname and vname in names) or (names & locals_from_target) or any(isinstance(c, ast.Call) and isinstance(c.func, ast.Name) and c.func.id in ("getattr", "isinstance", "type")
+                                                                                  for c in ast.walk(test)):
+                filters.append(ast.unparse(test)[:80])
+        chk.check(not filters, "C20.h", "hiten.algorithms.types.core::_HitenBase._setup_services[restore loop]",
+                  f"the loop that restores pickled computed properties skips values depending on {filters}: state that was saved is silently not restored",
+                  sample="restore: for every saved (name, value) the target has an attribute for: setattr(target, name, value)", nontrivial=False)
     restore = [c for c in ast.walk(setup) if isinstance(c, ast.Call) and isinstance(c.func, ast.Name) and c.func.id == "setattr"]
     resets = [c for c in ast.walk(setup) if isinstance(c, ast.Call) and isinstance(c.func, ast.Attribute) and c.func.attr == "reset"]
     if restore and resets and min(c.lineno for c in resets) > max(c.lineno for c in restore):
